@@ -24,6 +24,15 @@ CHECKS = {
  "C09": dict(level="fault_enumeration", engine="LOG", technique="stateful property testing of DepsLog sessions with every-offset truncation, garbage tails and structured damage, oracle = independent binary-format parser + recorded-deps model",
              text="Generated multi-session histories on a real .ninja_deps; every truncation offset (exhaustive up to 3000 bytes), random tails and structurally malformed records after a valid prefix, each continued by an appending session and a reload; deps loaded == fold of complete well-formed records == most recently recorded deps; file size after recovery == end of last good record.",
              ref="4/C09", note="Trusted base: M-depslog parser in verif/props/C09.py, the probe's op interpreter. Two genuine defects found by this check were repaired (fix: commits 33f8d0f, 9f3b7db)."),
+ "C13": dict(level="exploration", engine="enumerator+libFuzzer", technique="coverage-guided fuzzing (libFuzzer, ASan+UBSan) of every input format with the parsed result put to use, plus exhaustive token-alphabet enumeration",
+             text="Six libFuzzer targets (manifest with includes, dyndep, depfile, .ninja_log, .ninja_deps incl. structure-aware records, /showIncludes + MAKEFLAGS + status formats + string helpers) whose iterations also use what was parsed (bindings, dirty scan, dry-run build, GetDeps, recompaction, reload); every sequence of up to N tokens over each text format's token alphabet; regression inputs for repaired findings. Sanitizer reports, aborts and 20 s hangs (replayed 3x) are violations.",
+             ref="4/C13", note="Trusted base: ASan/UBSan/libFuzzer; the Fatal() hook (guarded) turns 'reports an error and exits' into a countable outcome. Three genuine defects found here were repaired (fix: 9f3b7db, f3ef2ee, 6887975)."),
+ "C15": dict(level="exploration", engine="enumerator+libFuzzer", technique="round-trip testing: encode names in the GCC/Clang Makefile dialect, parse, compare; exhaustive over short names x encoders x layouts plus structure-aware fuzzing",
+             text="Every name up to L characters over a 16-character special alphabet, in three positions, two encoders and eight layouts, must be read back exactly; libFuzzer decodes bytes into name lists for the same oracle; rejection clauses checked; the byte class behind known finding D11 is excluded by construction and exercised separately.",
+             ref="4/C15", note="Trusted base: the encoder models in cxx/ref_depfile.h (ports of mkdeps.c munge and Clang's PrintFilename)."),
+ "C16": dict(level="exploration", engine="shell", technique="exhaustive + random differential test against the real /bin/sh: ninja's $in/$out/$in_newline text must be read back as exactly the names",
+             text="All 1- and 2-byte names and all 3-byte names over the shell-special alphabet (and random names up to 4 KiB in lists of 1-5) are substituted by ninja and handed to /bin/sh -c; a helper prints what it received; directories with decoy files and a private HOME make globbing, expansion and injection visible.",
+             ref="4/C16", note="Trusted base: /bin/sh (dash), cxx/argdump.c. Level 2 (manifest -> real binary -> rspfile life-cycle) is covered by the E2E engine when built."),
  "C14": dict(level="exploration", engine="enumerator+libFuzzer", technique="exhaustive enumeration over {a,b,.,/}^<=L plus coverage-guided fuzzing, oracle = reference normaliser + laws",
              text="Every string over the structural alphabet up to a bound is compared with a 12-line reference normaliser and the algebraic laws; libFuzzer extends to arbitrary bytes and very long paths with the same oracle inside the target.", ref="4/C14",
              note="Trusted base: cxx/ref_canon.h (reference), ASan/UBSan. POSIX build only."),
@@ -33,7 +42,8 @@ ENGINES = [
       kind_free_text="in-process build simulator: virtual disk with logical clock, scripted command runner owning the schedule, real log files; forked per request by the probe server"),
  dict(name="LOG", path="cxx/probe_misc.h (buildlog/depslog op interpreters) + verif/props/C08.py, C09.py", serves_properties=["C08", "C09"],
       kind_free_text="real BuildLog/DepsLog objects on real files driven by generated op lists inside the forked probe; files are cut from outside at every offset"),
- dict(name="enumerator+libFuzzer", path="cxx/enum_*.cc, cxx/fuzz_*.cc, verif/fuzz.py", serves_properties=["C14"],
+ dict(name="shell", path="verif/props/C16.py, cxx/argdump.c", serves_properties=["C16"], kind_free_text="ninja's substituted command text executed by the real /bin/sh"),
+ dict(name="enumerator+libFuzzer", path="cxx/enum_*.cc, cxx/fuzz_*.cc, verif/fuzz.py", serves_properties=["C13", "C14", "C15"],
       kind_free_text="bounded-exhaustive enumerators and libFuzzer targets with the semantic oracle inside the target"),
 ]
 
